@@ -15,3 +15,4 @@ from . import nesting  # noqa: F401
 from . import fixes  # noqa: F401
 from . import rules  # noqa: F401
 from . import front_matter  # noqa: F401
+from . import inline  # noqa: F401
